@@ -41,7 +41,8 @@ def plan(tier):
             "dev_shard": False, "min_nontrivial": 40,
             "min_counters": {"programs": 2000, "accepted": 1000, "rejected": 100, "results_compared": 1000,
                              "the_programs": 100, "join_programs": 100, "path_programs": 200,
-                             "accepted:join_rel": 50, "accepted:join_scalar_diff": 30}}
+                             "accepted:join_rel": 50, "accepted:join_scalar_diff": 30, "kind:join_siblings": 30,
+                             "accepted:unselected_subclass": 20, "kind:join_unselected": 20, "kind:two_paths": 40}}
 
 
 def coverage_extra(counters, evaluations):
@@ -79,7 +80,7 @@ def gen_world(rng):
                "o": rng.choice([None, 0.0, 1.0, 2.5, -1.0]), "k": rng.randint(0, 2),
                "labels": rng.sample(["a", "ab", "b", "c d", "A"], rng.choice([0, 1, 1, 2, 3]))} for _ in range(n_leaf)]
     other_all = rng.random() < 0.5
-    holders = [{"sub": rng.random() < 0.35, "leaf": rng.randrange(n_leaf), "other": rng.randrange(n_leaf) if (other_all or rng.random() < 0.5) else None,
+    holders = [{"sub": rng.choice([False, False, False, True, True, "side"]), "leaf": rng.randrange(n_leaf), "other": rng.randrange(n_leaf) if (other_all or rng.random() < 0.5) else None,
                 "many": [rng.randrange(n_leaf) for _ in range(rng.randint(0, 3))], "extra": rng.randint(0, 4), "bonus": rng.randint(0, 3)}
                for _ in range(rng.randint(3, 8))]
     tags = [{"leaf": rng.randrange(n_leaf), "w": rng.randint(0, 4)} for _ in range(rng.randint(2, 6))]
@@ -90,6 +91,7 @@ def gen_world(rng):
 SCALARS = {"Leaf": [("n", "int"), ("s", "str"), ("o", "nfloat"), ("k", "int"), ("labels", "strlist")],
            "Holder": [("extra", "int"), ("leaf.n", "int"), ("leaf.s", "str"), ("leaf.k", "int"), ("other.n", "optpath"), ("leaf.labels", "strlist")],
            "SubHolder": [("extra", "int"), ("bonus", "int"), ("leaf.n", "int"), ("leaf.s", "str")],
+           "SideHolder": [("extra", "int"), ("side", "int"), ("leaf.n", "int")],
            "Tag": [("w", "int"), ("leaf.n", "int"), ("leaf.k", "int")],
            "Top": [("rank", "int"), ("holder.extra", "int"), ("holder.leaf.n", "int"), ("holder.leaf.s", "str"),
                    ("backup.extra", "int"), ("backup.leaf.n", "int"), ("backup.leaf.k", "int"), ("backup.leaf.s", "str"),
@@ -105,7 +107,10 @@ def gen_atom(rng, var, cls, world):
     t = ["path", var, path]
     r = rng.random()
     if typ == "nfloat":
-        return ["cmp", rng.choice(["==", "==", "!="]), t, ["lit", rng.choice([None, 0.0, 1.0, 2.5])]] if r < 0.8 else ["in", t, ["lit", [0.0, 2.5]]]
+        if r < 0.7:
+            return ["cmp", rng.choice(["==", "==", "!="]), t, ["lit", rng.choice([None, 0.0, 1.0, 2.5])]]
+        # membership in a collection that may hold None: the rows whose value is None belong to the answer
+        return ["in", t, ["lit", rng.choice([[0.0, 2.5], [1.0, None], [None], [None, 0.0, 2.5]])]]
     if typ == "strlist":
         # membership in a collection of builtins (one JSON column): an element, not a piece of the stored text
         v = ["lit", rng.choice(["a", "ab", "b", "c", "d", "A", ""])]
@@ -141,9 +146,9 @@ def gen(rng, tier, ctx):
     world = gen_world(rng)
     kind = rng.choices(["single", "single", "single", "join_rel", "join_scalar_diff", "join_scalar_same", "join_rel_same",
                         "membership_rel", "var_eq_rel", "reject", "join_in_or", "join_twice", "value_var", "set_of", "select_attr",
-                        "odd_collection", "opt_in_or"],
-                       [30, 20, 10, 8, 6, 4, 3, 3, 3, 6, 3, 3, 3, 2, 3, 3, 4])[0]
-    cls = rng.choice(["Leaf", "Holder", "SubHolder", "Tag", "Top", "Top"])
+                        "odd_collection", "opt_in_or", "join_siblings", "unselected_subclass", "join_unselected", "two_paths"],
+                       [30, 20, 10, 8, 6, 4, 3, 3, 3, 6, 3, 3, 3, 2, 3, 3, 4, 4, 4, 3, 5])[0]
+    cls = rng.choice(["Leaf", "Holder", "SubHolder", "SideHolder", "Tag", "Top", "Top"])
     q = {"kind": kind, "quant": "the" if rng.random() < 0.12 else "an", "root": cls, "vars": {"x": cls}}
     if kind == "single":
         q["cond"] = gen_cond(rng, "x", cls, world, rng.randint(0, 3))
@@ -166,6 +171,41 @@ def gen(rng, tier, ctx):
         else:
             q["root"], q["vars"] = "Leaf", {"x": "Leaf", "y": "Leaf"}
             q["cond"] = ["cmp", rng.choice(CMP), ["path", "x", "n"], ["path", "y", "k"]]
+    elif kind == "two_paths":
+        # two paths over two different references to the same class in one query: each needs a join of its own
+        if rng.random() < 0.5:
+            q["root"], q["vars"] = "Holder", {"x": "Holder"}
+            a = ["cmp", rng.choice(CMP), ["path", "x", "leaf." + rng.choice("nk")], ["lit", rng.randint(0, 4)]]
+            b = ["cmp", rng.choice(CMP), ["path", "x", "other." + rng.choice("nk")], ["lit", rng.randint(0, 4)]]
+        else:
+            q["root"], q["vars"] = "Top", {"x": "Top"}
+            tail = rng.choice(["extra", "leaf.n", "leaf.k"])
+            a = ["cmp", rng.choice(CMP), ["path", "x", "holder." + tail], ["lit", rng.randint(0, 4)]]
+            b = ["cmp", rng.choice(CMP), ["path", "x", "backup." + tail], ["lit", rng.randint(0, 4)]]
+        q["cond"] = [rng.choice(["and", "and", "or"]), a, b] if rng.random() < 0.5 else [rng.choice(["and", "and", "or"]), b, a]
+    elif kind == "join_siblings":
+        # two variables of sibling classes: what they inherit lives in the one table of their common base
+        q["root"], q["vars"] = "SubHolder", {"x": "SubHolder", "y": "SideHolder"}
+        r = rng.random()
+        if r < 0.4:
+            q["cond"] = ["cmp", rng.choice(CMP), ["path", "x", "extra"], ["path", "y", "extra"]]
+        elif r < 0.7:
+            q["cond"] = ["and", ["cmp", "==", ["path", "x", "extra"], ["lit", rng.randint(0, 4)]],
+                         ["cmp", "==", ["path", "y", "extra"], ["lit", rng.randint(0, 4)]]]
+        else:
+            q["cond"] = ["cmp", rng.choice(["==", "!="]), ["path", "x", "leaf"], ["path", "y", "leaf"]]
+    elif kind == "unselected_subclass":
+        # the variable that is not selected ranges over a sub-class; the attribute it is asked for is inherited
+        q["root"], q["vars"] = "Tag", {"x": "Tag", "y": rng.choice(["SubHolder", "SideHolder"])}
+        q["cond"] = ["cmp", rng.choice(CMP), ["path", "x", "w"], ["path", "y", "extra"]]
+        if rng.random() < 0.4:
+            q["cond"] = ["and", q["cond"], gen_atom(rng, "x", "Tag", world)]
+    elif kind == "join_unselected":
+        # a join between two variables of which neither is the selected one
+        q["root"], q["vars"] = "Top", {"x": "Top", "y": "Holder", "z": "Tag"}
+        q["cond"] = ["and", ["cmp", "==", ["path", "y", "leaf"], ["path", "z", "leaf"]], gen_atom(rng, "x", "Top", world)]
+        if rng.random() < 0.5:
+            q["cond"] = ["and", q["cond"][2], q["cond"][1]]
     elif kind == "join_rel_same":
         q["root"], q["vars"] = "Holder", {"x": "Holder", "y": "Holder"}
         q["cond"] = ["cmp", "==", ["path", "x", "leaf"], ["path", "y", "other"]]
@@ -232,6 +272,8 @@ def witnesses():
                          {"sub": False, "leaf": 2, "other": 0, "many": [2], "extra": 3, "bonus": 0}],
              "tags": [{"leaf": 0, "w": 1}, {"leaf": 2, "w": 3}], "tops": [{"holder": 0, "rank": 1}, {"holder": 1, "rank": 2}], "other_all": True}
     world = dict(world, leaves=[dict(l, labels=lb, s=st) for l, lb, st in zip(world["leaves"], (["ab"], ["a", "b"], []), ("A_b", "axb", "ab"))])
+    siblings = dict(world, holders=[dict(world["holders"][0]), dict(world["holders"][1]), dict(world["holders"][2], sub="side")],
+                    tags=[{"leaf": 0, "w": 1}, {"leaf": 1, "w": 3}], tops=[{"holder": 0, "backup": 1, "rank": 1}])
     return {
         "optional-path-inner-join": {"world": dict(world, holders=[dict(h, other=None if i == 0 else h["other"]) for i, h in enumerate(world["holders"])], other_all=False),
                                      "query": {"kind": "opt_in_or", "quant": "an", "root": "Holder", "vars": {"x": "Holder"},
@@ -256,6 +298,17 @@ def witnesses():
         "same-class-relationship-join-unaliased": {"world": world, "query": {
             "kind": "join_rel_same", "quant": "an", "root": "Holder", "vars": {"x": "Holder", "y": "Holder"},
             "cond": ["cmp", "==", ["path", "x", "leaf"], ["path", "y", "other"]]}},
+        "sibling-variables-share-inherited-columns": {"world": siblings, "query": {
+            "kind": "join_siblings", "quant": "an", "root": "SubHolder", "vars": {"x": "SubHolder", "y": "SideHolder"},
+            "cond": ["cmp", "<", ["path", "x", "extra"], ["path", "y", "extra"]]}},
+        "unselected-subclass-variable-ranges-over-its-base": {"world": siblings, "query": {
+            "kind": "unselected_subclass", "quant": "an", "root": "Tag", "vars": {"x": "Tag", "y": "SideHolder"},
+            "cond": ["cmp", "==", ["path", "x", "w"], ["path", "y", "extra"]]}},
+        "join-between-two-unselected-classes": {"world": siblings, "query": {
+            "kind": "join_unselected", "quant": "an", "root": "Top", "vars": {"x": "Top", "y": "Holder", "z": "Tag"},
+            "cond": ["and", ["cmp", "==", ["path", "y", "leaf"], ["path", "z", "leaf"]], ["cmp", ">=", ["path", "x", "rank"], ["lit", 0]]]}},
+        "membership-in-a-collection-holding-none": {"world": world, "query": {
+            "kind": "single", "quant": "an", "root": "Leaf", "vars": {"x": "Leaf"}, "cond": ["in", ["path", "x", "o"], ["lit", [1.0, None]]]}},
     }
 
 
@@ -267,7 +320,7 @@ def make_objects(world, sm):
     for h in world["holders"]:
         kw = dict(uid=next(uid), leaf=leaves[h["leaf"]], other=leaves[h["other"]] if h["other"] is not None else None,
                   many=[leaves[i] for i in h["many"]], extra=h["extra"])
-        holders.append(sm.SubHolder(bonus=h["bonus"], **kw) if h["sub"] else sm.Holder(**kw))
+        holders.append(sm.SideHolder(side=h["bonus"], **kw) if h["sub"] == "side" else sm.SubHolder(bonus=h["bonus"], **kw) if h["sub"] else sm.Holder(**kw))
     tags = [sm.Tag(uid=next(uid), leaf=leaves[t["leaf"]], w=t["w"]) for t in world["tags"]]
     tops = [sm.Top(uid=next(uid), holder=holders[t["holder"]], backup=holders[t.get("backup", t["holder"])], rank=t["rank"]) for t in world["tops"]]
     return {"leaves": leaves, "holders": holders, "tags": tags, "tops": tops}
@@ -279,7 +332,8 @@ def build_query(q, objs, sm):
     from krrood.entity_query_language.quantify_entity import an, the
     import operator
     OPS = {"==": operator.eq, "!=": operator.ne, "<": operator.lt, "<=": operator.le, ">": operator.gt, ">=": operator.ge}
-    doms = {"Leaf": objs["leaves"], "Holder": objs["holders"], "SubHolder": objs["holders"], "Tag": objs["tags"], "Top": objs["tops"]}
+    doms = {"Leaf": objs["leaves"], "Holder": objs["holders"], "SubHolder": objs["holders"], "SideHolder": objs["holders"], "Tag": objs["tags"],
+            "Top": objs["tops"]}
     V = {name: E.let(getattr(sm, cls), list(doms[cls]), name=name) for name, cls in q["vars"].items()}
     if q.get("value_var") is not None:
         V["k"] = E.let(int, list(q["value_var"]), name="k")
@@ -326,13 +380,13 @@ def build_query(q, objs, sm):
     elif rj == "exists":
         cond = E.exists(x, cond)
     elif rj == "call":
-        path = {"Leaf": "s", "Holder": "leaf.s", "SubHolder": "leaf.s", "Tag": "leaf.s", "Top": "holder.leaf.s"}[q["root"]]
+        path = {"Leaf": "s", "Holder": "leaf.s", "SubHolder": "leaf.s", "SideHolder": "leaf.s", "Tag": "leaf.s", "Top": "holder.leaf.s"}[q["root"]]
         e = x
         for part in path.split("."):
             e = getattr(e, part)
         cond = E.and_(cond, e.upper() == "AB")
     elif rj == "index":
-        path = {"Leaf": "s", "Holder": "leaf.s", "SubHolder": "leaf.s", "Tag": "leaf.s", "Top": "holder.leaf.s"}[q["root"]]
+        path = {"Leaf": "s", "Holder": "leaf.s", "SubHolder": "leaf.s", "SideHolder": "leaf.s", "Tag": "leaf.s", "Top": "holder.leaf.s"}[q["root"]]
         e = x
         for part in path.split("."):
             e = getattr(e, part)
@@ -445,6 +499,7 @@ def run(case, ctx):
                     "detail": f"{q['kind']} {q['quant']} {q['root']} {skeleton(q['cond'])}: " + "; ".join(problems),
                     "obs": {"sql": str(getattr(tr, 'sql_query', ''))[:500]}}
         n_root = len({"Leaf": objs["leaves"], "Holder": objs["holders"], "SubHolder": [h for h in objs["holders"] if isinstance(h, sm.SubHolder)],
+                      "SideHolder": [h for h in objs["holders"] if isinstance(h, sm.SideHolder)],
                       "Tag": objs["tags"], "Top": objs["tops"]}[q["root"]])
         return {"status": "ok", "nontrivial": mem is not None and 0 < len(mem) < n_root,
                 "shape": q["quant"] + ":" + q["root"] + ":" + skeleton(q["cond"]),
